@@ -638,3 +638,9 @@ mod tests {
         Ok(())
     }
 }
+
+#[cfg(kani)]
+#[allow(warnings, clippy::all, clippy::pedantic)]
+pub(crate) mod verif_kani {
+    include!(concat!(env!("IPA_VERIF_DIR"), "/harness/mac_validator.rs"));
+}
